@@ -488,6 +488,24 @@ func publicAPI(h *H) {
 		if got != "-" {
 			h.Violation("C18", "public OffEvent without handlers does not remove all handlers of the event", "OnEvent(ev,h1); OnceEvent(ev,h3); OffEvent(ev)", "remaining: "+got)
 		}
+		// OffEvent given handlers that are not registered (a handler never registered, a nil function value): nothing is removed
+		s.OnEvent("ev", evh0)
+		s.OnEvent("ev", evh1)
+		s.OnceEvent("ev", evh2)
+		var nilFn func()
+		for _, tc := range []struct {
+			name string
+			args []any
+		}{{"a handler that was never registered", []any{evh4}}, {"a nil function value", []any{nilFn}}, {"a nil function value and a handler that was never registered", []any{nilFn, evh4}}} {
+			s.OffEvent("ev", tc.args...)
+			h.Eval()
+		}
+		got = names()
+		h.NonTrivial("public:OffEventAbsent")
+		if got != "0,1,2" {
+			h.Violation("C18", "public OffEvent given a handler that is not registered removes other handlers", "OnEvent(ev,h0); OnEvent(ev,h1); OnceEvent(ev,h2); OffEvent(ev, <never registered>); OffEvent(ev, <nil func>); OffEvent(ev, <nil func>, <never registered>)", "remaining: "+got+" (expected 0,1,2)")
+		}
+		s.OffEvent("ev")
 		// closures of one function literal
 		var cs []func()
 		for i := 0; i < 2; i++ {
